@@ -6,6 +6,8 @@
   python3-vt -m pyvc.seeded run [<id> ...]        apply each kept change under /verif/seeded/<id>/ to a scratch copy of
         /repo's sources (never to /repo), run the quick check of the property it breaks (and with --all every property)
         and record which obligations fail.  Writes /verif/seeded/RESULTS.json and prints the table for DESIGN.md 8.7.
+  python3-vt -m pyvc.seeded harmless [<id> ...]   apply each behaviour-preserving change under /verif/harmless/<id>/ to a scratch
+        copy and run ALL twenty quick checks: none may report a violation.  Writes /verif/harmless/RESULTS.json.
 """
 import json
 import os
@@ -169,6 +171,38 @@ def main(argv):
         json.dump(old, open(path, 'w'), indent=1, sort_keys=True)
         missed = [s for s, r in results.items() if r['checks'][r['property']]['exit'] != 1]
         print('caught %d / %d' % (len(results) - len(missed), len(results)), 'missed:', missed)
+        return 0
+    if argv and argv[0] == 'harmless':
+        # behaviour-preserving refactorings (sub-agents, /verif/harmless/<id>/patch.diff): no check may print a VIOLATION
+        hdir = os.path.join(ROOT, 'harmless')
+        args = [a for a in argv[1:] if not a.startswith('--')]
+        ids = args or sorted(x for x in os.listdir(hdir) if os.path.isdir(os.path.join(hdir, x)))
+
+        def one(hid):
+            scratch = scratch_with_patch(os.path.join(hdir, hid, 'patch.diff'))
+            res = {}
+            try:
+                for p in ALL:
+                    r = sh([sys.executable, '-m', 'pyvc.check', p, '--no-evidence'], cwd=ROOT,
+                           env=dict(os.environ, PYVC_REPO=scratch, PYVC_JOBS=os.environ.get('PYVC_SEED_JOBS', '5')))
+                    if r.returncode != 0:
+                        res[p] = dict(exit=r.returncode, first=[l[:300] for l in r.stdout.splitlines() if l.startswith(('VIOLATION', 'UNDECIDED', 'CHECKER'))][:2])
+            finally:
+                shutil.rmtree(scratch, ignore_errors=True)
+            return hid, res
+        results = {}
+        with ThreadPoolExecutor(int(os.environ.get('SEED_JOBS', '3'))) as ex:
+            for hid, res in ex.map(one, ids):
+                results[hid] = res
+                print('%-8s %s' % (hid, ' '.join('%s=%d' % (p, r['exit']) for p, r in sorted(res.items())) or 'all 20 checks exit 0'), flush=True)
+        path = os.path.join(hdir, 'RESULTS.json')
+        old = json.load(open(path)) if os.path.exists(path) and args else {}
+        old.update(results)
+        json.dump(old, open(path, 'w'), indent=1, sort_keys=True)
+        alarms = sorted(h for h, r in results.items() if any(v['exit'] == 1 for v in r.values()))
+        und = sorted(h for h, r in results.items() if r and h not in alarms)
+        print('%d harmless changes: %d without any non-zero exit, %d undecided somewhere %s, %d FALSE ALARMS %s'
+              % (len(results), len(results) - len(alarms) - len(und), len(und), und, len(alarms), alarms))
         return 0
     print(__doc__)
     return 2
